@@ -114,6 +114,7 @@ class C09(Prop):
     def cases(self, rng: random.Random, tier: str) -> Iterable[dict]:
         # every dedicated family is visited at least twice per run, whatever the seed; the rest is drawn at random
         closure_variant = 0
+        twins_split = 2
         forced = [0.04, 0.11, 0.16, 0.16, 0.21, 0.245, 0.28, 0.28, 0.32, 0.35, 0.35, 0.35, 0.38, 0.41, 0.45, 0.48, 0.51, 0.53, 0.7, 0.7, 0.7] * 2
         while True:
             r = forced.pop() if forced else rng.random()
@@ -134,6 +135,11 @@ class C09(Prop):
                     # the second node is DERIVED from the first node object (with_outputs: a swap / rotation of the names, or fresh
                     # names) AFTER that object was run against the cache
                     second = dict(na, dataOuts=perm if rng.random() < 0.5 else [o + "_z" for o in outs], deriveOutputsFrom="na")
+                if twins_split or rng.random() < 0.25:
+                    # ... or the same function with the SAME names split differently: ("lo", "hi") as two values versus "lo" as the value and
+                    # "hi" as an ordering signal
+                    twins_split = max(0, twins_split - 1)
+                    second = dict(na, dataOuts=[outs[0]], emits=[outs[1]] + outs[2:])
                 yield {"kind": "runs2", "programs": [prog_a, [{"name": "g0", "nodes": [second], "bound": []}]],
                        "values": [["x", rng.randint(0, 5)]], "backend": rng.choice(["mem", "lru2", "disk"]), "runner": rng.choice(["sync", "async"])}
                 continue
